@@ -106,6 +106,10 @@ def classify(e, selfn, memon):
             return a
         if b[0] in ('deep', 'shallow', 'self') and a[0] in ('const', 'empty'):
             return b
+        # two ways of copying the same field, chosen by a test: as independent as the weaker of the two
+        if a[0] in ('deep', 'shallow', 'self') and b[0] in ('deep', 'shallow', 'self') and a[1] == b[1]:
+            rank = {'self': 0, 'shallow': 1, 'deep': 2}
+            return a if rank[a[0]] <= rank[b[0]] else b
     return ('other', stmt_text(e), False)
 
 
@@ -158,6 +162,25 @@ def run(ctx) -> list[Inst]:
         if f is None:
             raise AnalysisError(f'{cname}.__deepcopy__ not found (anchor vanished)')
         rel = f.module.relpath
+        # (f) the copy is built through the class's constructor: a __post_init__ / __init__ epilogue that DERIVES or
+        # normalises fields (fills a default for None, recomputes a cache from the constructor arguments) runs on the
+        # copy too, with the arguments the copy passes - the copy then differs from an original whose field was set or
+        # cleared later
+        pi = c.methods.get('__post_init__')
+        if pi is not None:
+            sn_ = pi.self_name or 'self'
+            for n in own_nodes(pi.node):
+                if isinstance(n, (ast.Assign, ast.AugAssign, ast.AnnAssign)):
+                    tgs = n.targets if isinstance(n, ast.Assign) else [n.target]
+                    for tg in tgs:
+                        if isinstance(tg, ast.Attribute) and isinstance(tg.value, ast.Name) and tg.value.id == sn_ \
+                                and tg.attr in c.fields:
+                            insts.append(Inst(
+                                RULE, pi.short, f'(f) {cname}.{tg.attr} is not re-derived when the copy is constructed', 'violation',
+                                msg=(f"'{stmt_text(n, 60)}' in __post_init__ rewrites {tg.attr}; {cname}.__deepcopy__ builds the "
+                                     f"copy through the constructor, so the copy's {tg.attr} is what __post_init__ makes of "
+                                     f"the constructor arguments, not what the original holds at copy time"),
+                                file=pi.module.relpath, line=n.lineno, props=PROPS))
         if len(f.params) < 2:
             raise AnalysisError(f'{cname}.__deepcopy__ has no memo parameter')
         selfn, memon = f.params[0], f.params[1]
